@@ -94,6 +94,7 @@ type State struct {
 	ghosts map[string]Term // loop ghost arrays
 	curLoop int
 	loopEvStart map[int]int
+	loopHeap map[int]map[string]Term // heap at the start of the symbolic iteration
 }
 
 func (st *State) clone() *State {
@@ -142,6 +143,12 @@ func (st *State) clone() *State {
 	n.onceDone = make(map[string]Term, len(st.onceDone))
 	for k, v := range st.onceDone {
 		n.onceDone[k] = v
+	}
+	if st.loopHeap != nil {
+		n.loopHeap = make(map[int]map[string]Term, len(st.loopHeap))
+		for k, v := range st.loopHeap {
+			n.loopHeap[k] = v
+		}
 	}
 	if st.loopEvStart != nil {
 		n.loopEvStart = make(map[int]int, len(st.loopEvStart))
